@@ -118,8 +118,23 @@ func (p *pathRun) knownBelow(t *smt.Term, bound *big.Int) bool {
 		return t.Args[1].Val.Cmp(bound) <= 0
 	case t.Op == "bv2nat":
 		return pow2(uint(t.Args[0].Sort.W)).Cmp(bound) <= 0
+	case t.Op == "app" && (t.Name == "X_ed25519" || t.Name == "Y_ed25519"):
+		return bound.BitLen() > 255 // below the field prime 2^255 - 19
 	case t.Op == "app" && len(t.Name) > 2 && (t.Name[:2] == "X_" || t.Name[:2] == "Y_"):
 		return bound.BitLen() > 256
+	case t.Op == "+" && len(t.Args) == 2:
+		// a value plus one of two constants
+		for i := 0; i < 2; i++ {
+			it, other := t.Args[i], t.Args[1-i]
+			if it.Op == "ite" && it.Args[1].IsConst() && it.Args[2].IsConst() {
+				hi := it.Args[1].Val
+				if it.Args[2].Val.Cmp(hi) > 0 {
+					hi = it.Args[2].Val
+				}
+				rest := new(big.Int).Sub(bound, hi)
+				return rest.Sign() > 0 && p.knownBelow(other, rest)
+			}
+		}
 	case t.Op == "app" && len(t.Name) > 2 && (t.Name[:2] == "Hi" || t.Name[:2] == "Ht" || t.Name[:2] == "H1"):
 		return bound.BitLen() > 256
 	case t.Op == "ite":
@@ -136,11 +151,16 @@ func arrOf(v value) array {
 // (little-endian y, top bit = parity of x).
 func (p *pathRun) encPointBV(x, y, d, tau *smt.Term) *smt.Term {
 	c := p.ctx
-	yb := p.lowBits(y, 256)
 	odd := c.Eq(c.Mod(x, c.IntC64(2)), c.IntC64(1))
-	top := c.Ite(odd, c.BVC(256, pow2(255)), c.BVC64(256, 0))
-	// y < 2^255 so the top bit of yb is clear: or == add
-	enc := c.BVBin("bvor", yb, top)
+	var enc *smt.Term
+	if p.knownBelow(y, pow2(255)) {
+		// y < 2^255 so the top bit is clear: or == add, and the encoding stays an integer term
+		enc = c.Int2BV(256, c.Add(y, c.Ite(odd, c.IntC(pow2(255)), c.IntC64(0))))
+	} else {
+		yb := p.lowBits(y, 256)
+		top := c.Ite(odd, c.BVC(256, pow2(255)), c.BVC64(256, 0))
+		enc = c.BVBin("bvor", yb, top)
+	}
 	if p.encTab == nil {
 		p.encTab = map[*smt.Term]geGhost{}
 	}
@@ -398,7 +418,7 @@ func init() {
 		gA, okA := p.encTab[p.leBytesToBV(pub)]
 		gR, okR := p.encTab[p.leBytesToBV(sig[:32])]
 		if !okA || !okR {
-			panic(unsupported("ed25519.Verify: key or R is not structurally the encoding of a known point"))
+			panic(unsupported(fmt.Sprintf("ed25519.Verify: key or R is not structurally the encoding of a known point (key %v: %.120s; R %v: %.120s)", okA, p.leBytesToBV(pub), okR, p.leBytesToBV(sig[:32]))))
 		}
 		s := p.leBytesToInt(sig[32:])
 		h := p.edChallenge(fr, sig[:32], pub, a[1])
